@@ -114,14 +114,16 @@ def run_unit(args):
         st = {"cases": 0, "violations": []}
         undecided = [o for o in out["obligations"] if o["status"] == "undecided"]
         whole = any(o["kind"] == "error" for o in undecided) or bool(out["error"])
-        if os.environ.get("PYVC_FORCE_STANDIN"):
-            # self-test of the stand-in: evaluate the contract on the real code over the whole grid even
-            # though everything was proved (a concrete reading of a clause that disagrees with the proved
-            # one would otherwise stay latent until some change makes the case undecided)
+        skip_conformance = whole
+        if os.environ.get("PYVC_FORCE_STANDIN") or tier == "thorough":
+            # evaluate the contract on the REAL code over the whole grid even though everything was proved:
+            # the thorough tier's extra depth, and the self-test of the stand-in (a concrete reading of a clause
+            # that disagrees with the proved one would otherwise stay latent until a change makes the case
+            # undecided)
             undecided = undecided or [{"short": "forced", "kind": "error", "status": "undecided"}]
             whole = True
         for values in grid:
-            if not whole:
+            if not skip_conformance:
                 try:
                     r = case.conformance(T, values) if hasattr(case, "conformance") else replay.conform(T, case, values)
                 except contract.C.Unsupported as e:
